@@ -2330,3 +2330,7 @@ SEEDS["C20_category_dtypes_rebound_later"] = ("C20", [(A, "def _dtype_is_numpy_s
 
 
 def _dtype_is_numpy_struct_array(dtype):""")], "C20.9")
+
+
+# C08.4 with the leaf predicate lifted to module level (on top of benign/Z7/3.diff)
+SEEDS["C08_lifted_predicate_catches_everything"] = ("C08", [("@diff", "benign/Z7/3.diff", None), (P, "        accepts_leaftype(x)\n    except TypeError:\n        return False", "        accepts_leaftype(x)\n    except Exception:\n        return False")], "C08.4")
